@@ -314,7 +314,7 @@ PROPS = {
     "C10": {
         "pf": True,
         "n": {"quick": 240, "thorough": 8000},
-        "cone": ["Bytes", "Regex", "Generated", "Channel", "ChanTrace", "ChanTraceLemmas", "Replay"],
+        "cone": ["Bytes", "Regex", "Generated", "Channel", "ChanTrace", "ChanTraceLemmas", "Replay", "GeneratedSkel", "OpenSkel"],
         "rx": True,
         "rule": "generic.Driver.Open over a simulated transport that requests in-channel ssh / telnet login, against a scripted login device: "
                 "banners, prompt spellings accepted by the patterns, 0-3 rejections, passphrase prompts, ssh client failure messages, silence; "
@@ -328,7 +328,8 @@ PROPS = {
                       "Open requeues exactly the login bytes. Tied to the code by replaying real login dialogues.",
         "level_note": "Hypothesis of the property: no read boundary makes a banner prefix look like a login prompt (banner lines are whole atoms in "
                       "the harness). The model bounds the login loop by fuel (a hostile device that never matches anything ends in EOperation in "
-                      "the model, in a timeout in the code); 'transport closed on failure' is observed, not modelled.",
+                      "the model, in a timeout in the code); 'transport closed on failure': observed on every failing login, and C10_open_closes_on_failure "
+                      "(dataflow check, by computation, over the structure of the four Open functions re-extracted from the source on every run).",
     },
     "C11": {
         "pf": True,
